@@ -285,6 +285,40 @@ pub fn ctor(cx: &mut Ctx, iters: usize) {
         bytes[7] = (cx.rng.next() & 0xff) as u8;
         if let Some(a) = Affine::from_random_bytes(&bytes) { valid(cx, "from_random_bytes", a.into(), format!("bytes {:02x?}", bytes)); }
     }
+    // samplers: every RNG stream (structured: constant bytes, counters; and pseudo-random) yields a valid element
+    {
+        use ark_std::{rand::{RngCore, CryptoRng, Error}, UniformRand};
+        // structured prefixes (a rejection sampler need not terminate on a purely structured stream, so every stream
+        // turns pseudo-random after 48 draws)
+        struct Stream { mode: u8, state: u64, calls: u64 }
+        impl RngCore for Stream {
+            fn next_u32(&mut self) -> u32 { (self.next_u64() >> 32) as u32 }
+            fn next_u64(&mut self) -> u64 {
+                self.calls += 1;
+                match if self.calls % 97 > 48 { 1 } else { self.mode } {
+                    0 => { self.state = self.state.wrapping_add(1); self.state }                      // counter
+                    1 => { self.state ^= self.state << 13; self.state ^= self.state >> 7; self.state ^= self.state << 17; self.state }
+                    _ => { self.state = self.state.wrapping_add(0x0101010101010101); if self.state % 5 == 0 { u64::MAX } else { self.state } }
+                }
+            }
+            fn fill_bytes(&mut self, dest: &mut [u8]) { for ch in dest.chunks_mut(8) { let v = self.next_u64().to_le_bytes(); let n = ch.len(); ch.copy_from_slice(&v[..n]); } }
+            fn try_fill_bytes(&mut self, dest: &mut [u8]) -> Result<(), Error> { self.fill_bytes(dest); Ok(()) }
+        }
+        impl CryptoRng for Stream {}
+        for mode in 0..3u8 {
+            let mut rng = Stream { mode, state: 0x9E3779B97F4A7C15 ^ (mode as u64), calls: 0 };
+            for k in 0..(iters.max(32)) {
+                let e = Element::rand(&mut rng);
+                valid(cx, "Distribution<Element>::sample", e, format!("RNG stream mode {}, draw {}", mode, k));
+                let a = Affine::rand(&mut rng);
+                valid(cx, "Distribution<AffinePoint>::sample", a.into(), format!("RNG stream mode {}, draw {}", mode, k));
+                let x = Fq::rand(&mut rng);
+                cx.eq("Fq::rand is canonical", &|| format!("RNG stream mode {}, draw {}", mode, k), Fq::from_bytes_checked(&x.to_bytes()).is_ok(), true);
+                let y = decaf377::Fr::rand(&mut rng);
+                cx.eq("Fr::rand is canonical", &|| format!("RNG stream mode {}, draw {}", mode, k), decaf377::Fr::from_bytes_checked(&y.to_bytes()).is_ok(), true);
+            }
+        }
+    }
     valid(cx, "AffineRepr::zero", Affine::zero().into(), "zero()".into());
     valid(cx, "AffineRepr::generator", Affine::generator().into(), "generator()".into());
     valid(cx, "Group::generator", <Element as Group>::generator(), "generator()".into());
